@@ -100,7 +100,7 @@ def ob_engine(name, make, tier, label, unit_heights=False, forms=("repr",)):
             ins[f"x_{v}"] = x
         rev = {id(x): n for n, x in ins.items()}
         do_out = spec.get("compare_outputs", True)
-        core_spec = {k: val for k, val in spec.items() if k in ("name", "description", "inputs", "outputs", "blocks", "share_components")}
+        core_spec = {k: val for k, val in spec.items() if k in ("name", "description", "inputs", "outputs", "blocks", "share_components", "assign")}
         core_spec.setdefault("name", "demo")
 
         def rbody(v):
@@ -132,6 +132,11 @@ def ob_engine(name, make, tier, label, unit_heights=False, forms=("repr",)):
                               f"verdict(bool(bad), {name!r} + ': ' + '; '.join(bad)[:1500])"])
 
         rp = replay_fn(PROPERTY, label, rbody, key=None)
+        # recorded finding (known_findings.json): a Triangle / Trapezoid whose LAST vertex is NaN is written as a constructor call whose
+        # NaN argument the constructor reads as its two-vertex shorthand.  Signature: the rebuilt engine is exactly the engine the
+        # constructors make of those arguments (spec["shorthand_spec"]); anything else is reported under the obligation's own name
+        rp_known = replay_fn(PROPERTY, label, rbody, key=KNOWN_NAN_LAST_VERTEX)
+        short_spec = spec.get("shorthand_spec")
 
         def components(e):
             cs = []
@@ -152,6 +157,7 @@ def ob_engine(name, make, tier, label, unit_heights=False, forms=("repr",)):
             results = []
             with inst.shadow(fl.rule, float=sym_float_builtin):
                 e = build(core_spec, spec.get("weights"))
+                e_short = build(dict(short_spec, name=core_spec["name"]), spec.get("weights")) if short_spec else None
                 fll0 = fl.FllExporter().to_string(e)
                 for alias in ALIASES:
                     with fl.settings.context(alias=alias):
@@ -180,7 +186,8 @@ def ob_engine(name, make, tier, label, unit_heights=False, forms=("repr",)):
                                     outs.append([ov.value for ov in eng.output_variables])
                                 for eng in (e, e2):
                                     eng.restart()
-                            results.append((alias, form, e2, repr(e2) == r0, fl.FllExporter().to_string(e2) == fll0, outs))
+                            sig = e_short is not None and repr(e2) == repr(e_short) and fl.FllExporter().to_string(e2) == fl.FllExporter().to_string(e_short)
+                            results.append((alias, form, e2, repr(e2) == r0, fl.FllExporter().to_string(e2) == fll0, outs, sig))
                         # every component on its own
                         comp_bad = []
                         if alias in ("fl", "flx"):
@@ -197,16 +204,18 @@ def ob_engine(name, make, tier, label, unit_heights=False, forms=("repr",)):
                                     raise
                                 except Exception as ex:  # noqa
                                     comp_bad.append(f"{type(c).__name__}: {rc[:80]} does not evaluate: {ex!r}")
-                        results.append((alias, "components", None, not comp_bad, comp_bad, None))
+                        results.append((alias, "components", None, not comp_bad, comp_bad, None, e_short is not None and all("Triangle" in b or "Trapezoid" in b for b in comp_bad)))
             return e, results
 
+        rp_plain = rp
         for p in ob.paths(pre, body):
             if p.exc is not None:
-                ob.unexpected(pre, p, label, ins, rp)
+                ob.unexpected(pre, p, label, ins, rp_plain)
                 continue
             e, results = p.result
-            for alias, form, e2, repr_ok, fll_ok, outs in results:
+            for alias, form, e2, repr_ok, fll_ok, outs, sig in results:
                 lab = f"{label}/alias={alias!r}/{form}"
+                rp = rp_known if sig else rp_plain
                 if form == "components":
                     ob.prove(pre, p, bool(repr_ok), f"{lab}: {fll_ok[:3]}", ins, rp)
                     continue
@@ -227,6 +236,9 @@ def ob_engine(name, make, tier, label, unit_heights=False, forms=("repr",)):
             ob.r.vacuity_ok += 1
 
     return run
+
+
+KNOWN_NAN_LAST_VERTEX = "repr/nan-last-vertex-read-as-two-vertex-shorthand"
 
 
 def obligations(tier, seed):
